@@ -161,7 +161,39 @@ def untraced(fn, *args):
         else:
             raise TypeError('untraced() takes selectors only')
     with NoTracing():
+        if os.environ.get('VF_ISOLATE') == '1':
+            return _isolated(fn, conc)
         return _no_livelock(fn, conc)
+
+
+def _isolated(fn, conc):
+    """Run one scenario in a forked child, so that nothing the code under test leaves behind in the process (class- or
+    module-level state) reaches the scenarios of the other tuples. Used by the runner when a counterexample found in the
+    shared process does not reproduce in a fresh one."""
+    import json as _json
+    r_, w_ = os.pipe()
+    pid = os.fork()
+    if pid == 0:
+        try:
+            os.close(r_)
+            try:
+                res = _no_livelock(fn, conc)
+            except BaseException as e:  # noqa
+                res = 'EXC %s: %s' % (type(e).__name__, e)
+            os.write(w_, _json.dumps(res if isinstance(res, str) else repr(res)).encode('utf-8'))
+        finally:
+            os._exit(0)
+    os.close(w_)
+    chunks = []
+    while True:
+        b = os.read(r_, 65536)
+        if not b:
+            break
+        chunks.append(b)
+    os.close(r_)
+    os.waitpid(pid, 0)
+    data = b''.join(chunks)
+    return _json.loads(data.decode('utf-8')) if data else 'EXC child produced no result'
 
 
 def _no_livelock(fn, args):
